@@ -271,3 +271,33 @@ Proof.
   - intros. apply LInv_step. assumption.
   - intros. apply LPre_init.
 Qed.
+
+(* ---------------------------------------------------------------- the statements used in Properties/C18.v *)
+
+Lemma logged_once_lemma : forall c sched a,
+  a < List.length (cf_archs c) ->
+  let A := g_arch (run c sched) a in
+  map e_no (a_log A) = seq 1 (List.length (a_log A)) /\
+  a_att A = S (List.length (a_log A)) /\
+  map (fun e => (e_no e, e_abort e)) (a_log A) = map (fun h => (h_no h, h_abort h)) (a_hist A).
+Proof.
+  intros c sched a Ha A. destruct (LInv_run c sched a Ha) as [I1 I2 I3 I4]. fold A in I1, I2, I3, I4.
+  split; [exact I3|]. split; [exact I4|].
+  pose proof (f_equal (map (fun p : list element * vclock * bool * nat => (snd p, snd (fst p)))) I2) as H.
+  rewrite !map_map in H. exact H.
+Qed.
+
+Lemma elements_faithful_lemma : forall c sched a,
+  a < List.length (cf_archs c) ->
+  let A := g_arch (run c sched) a in
+  map e_elems (a_log A) = map (fun h => map elem_of (h_perf h)) (a_hist A) /\
+  map e_clock (a_log A) = map h_clock (a_hist A) /\
+  a_elems A = map elem_of (a_perf A).
+Proof.
+  intros c sched a Ha A. destruct (LInv_run c sched a Ha) as [I1 I2 I3 I4]. fold A in I1, I2, I3, I4.
+  split; [|split; [|exact I1]].
+  - pose proof (f_equal (map (fun p : list element * vclock * bool * nat => fst (fst (fst p)))) I2) as H.
+    rewrite !map_map in H. exact H.
+  - pose proof (f_equal (map (fun p : list element * vclock * bool * nat => snd (fst (fst p)))) I2) as H.
+    rewrite !map_map in H. exact H.
+Qed.
